@@ -154,11 +154,15 @@ pub fn gen_jsonish(src: &mut Src) -> String {
         "\u{0}", "x", "'", "\"",
     ];
     let mut s = String::new();
-    if src.chance(90) {
-        for _ in 0..1 + src.below(2) {
-            s.push_str(*src.pick(PADS));
+    let pad = |src: &mut Src, s: &mut String| {
+        if src.chance(90) {
+            for _ in 0..1 + src.below(2) {
+                // JSON's own blanks as often as everything else together
+                s.push_str(if src.flip() { *src.pick(&[" ", "\t", "\n", "\r"]) } else { *src.pick(PADS) });
+            }
         }
-    }
+    };
+    pad(src, &mut s);
     if src.chance(60) {
         // a generated numeral
         match gen_number(src) {
@@ -168,11 +172,7 @@ pub fn gen_jsonish(src: &mut Src) -> String {
     } else {
         s.push_str(*src.pick(CORES));
     }
-    if src.chance(90) {
-        for _ in 0..1 + src.below(2) {
-            s.push_str(*src.pick(PADS));
-        }
-    }
+    pad(src, &mut s);
     s
 }
 
